@@ -113,3 +113,28 @@ func VP_C09_dynbt_arrays() {
 	vp.Assert(string(w1.b) == string(w2.b) && string(w1.b) == string(payload), "same value under fragmentation")
 	vp.Cover("end")
 }
+
+// byte arrays beyond any read-chunk size (65536, 65537, 70000 and 140000 bytes)
+// from a reader that delivers 1, 1000, 4096 or 65535 bytes per Read: the same
+// value and the same residual stream as from a
+// contiguous reader.
+func VP_C09_dynbt_big_arrays() {
+	n := []int{65536, 65537, 70000, 140000}[vp.Choice(4)]
+	vp.SizeBound(n + 64)
+	vp.Unwind(n + 64)
+	payload := []byte{byte(n >> 24), byte(n >> 16), byte(n >> 8), byte(n)}
+	for i := 0; i < n; i++ {
+		payload = append(payload, byte(i*7+1))
+	}
+	payload[4], payload[len(payload)-1] = vp.Byte(), vp.Byte()
+	stream := append(append([]byte{}, payload...), 0x31, 0x32)
+	r := &vpByteReader{b: stream, fail: -1}
+	r.chunk = []int{1, 1000, 4096, 65535}[vp.Choice(4)]
+	var v Value
+	vp.Assert(v.UnmarshalNBT(7, r) == nil, "same error-ness under fragmentation")
+	vp.Assert(r.pos == len(payload), "same residual stream under fragmentation")
+	var w vpBuf
+	vp.Assert(v.MarshalNBT(&w) == nil, "re-encodes")
+	vp.Assert(string(w.b) == string(payload), "same value under fragmentation")
+	vp.Cover("end")
+}
